@@ -272,6 +272,76 @@ Definition kc_or_new (r : run) (s : state) : kcap :=
 Fixpoint first_match {A} (f : A -> bool) (l : list A) : option A :=
   match l with [] => None | x :: r => if f x then Some x else first_match f r end.
 
+(* what happens once the run has consumed [e] by moving to state [nx] = [ns] through the
+   transitions loop of advance_run_shared *)
+Definition enter_trans (lim : limits) (r : run) (e : event) (nx : nat) (ns : state) : adv :=
+  let r1 := push (set_cur r nx) e (s_alias ns) in
+  match s_type ns with
+  | TAccept => complete_run r1 lim
+  | TKleene =>
+    if s_self ns then
+      if s_eps_acc ns then
+        let r2 := set_kc r1 (Some (kc_count (r_kc r1) e (s_alias ns))) in
+        ACompleteContinue r2 (match_of r2)
+      else
+        let k := kc_or_new r1 ns in
+        if N.leb (max_events lim) (k_next k) then AContinue (set_kc r1 (Some k))
+        else match kc_extend k e (s_alias ns) with
+             | Some k' => AContinue (set_kc r1 (Some k'))
+             | None => APanic
+             end
+    else AContinue r1
+  | _ => AContinue r1
+  end.
+
+(* transitions: first matching next state *)
+Fixpoint trans_go (n : nfa) (lim : limits) (r : run) (e : event) (ts : list nat) : option adv :=
+  match ts with
+  | [] => None
+  | nx :: rest =>
+    match nth_error n nx with
+    | None => Some APanic
+    | Some ns => if matches_state ns e (r_cap r) then Some (enter_trans lim r e nx ns) else trans_go n lim r e rest
+    end
+  end.
+
+(* through an epsilon edge: no Kleene bookkeeping on this path (as in the code) *)
+Definition enter_eps (lim : limits) (r : run) (e : event) (nx : nat) (ns : state) : adv :=
+  let r1 := push (set_cur r nx) e (s_alias ns) in
+  match s_type ns with
+  | TAccept => complete_run r1 lim
+  | _ => AContinue r1
+  end.
+
+Fixpoint eps_inner (n : nfa) (lim : limits) (r : run) (e : event) (ts : list nat) : option adv :=
+  match ts with
+  | [] => None
+  | nx :: rest =>
+    match nth_error n nx with
+    | None => Some APanic
+    | Some ns => if matches_state ns e (r_cap r) then Some (enter_eps lim r e nx ns) else eps_inner n lim r e rest
+    end
+  end.
+
+Fixpoint eps_go (n : nfa) (lim : limits) (r : run) (e : event) (es : list nat) : option adv :=
+  match es with
+  | [] => None
+  | ep :: rest =>
+    match nth_error n ep with
+    | None => Some APanic
+    | Some es_ =>
+      match s_type es_ with
+      | TAccept => Some (complete_run r lim)
+      | _ => match eps_inner n lim r e (s_trans es_) with
+             | Some a => Some a
+             | None => eps_go n lim r e rest
+             end
+      end
+    end
+  end.
+
+Definition is_kleene (s : state) : bool := match s_type s with TKleene => true | _ => false end.
+
 (* advance_run_shared *)
 Definition advance (n : nfa) (lim : limits) (r : run) (e : event) : adv :=
   match nth_error n (r_cur r) with
@@ -280,7 +350,7 @@ Definition advance (n : nfa) (lim : limits) (r : run) (e : event) : adv :=
     match s_type cur with
     | TAccept => complete_run r lim
     | _ =>
-      if (match s_type cur with TKleene => true | _ => false end) && s_self cur && matches_state cur e (r_cap r) then
+      if is_kleene cur && s_self cur && matches_state cur e (r_cap r) then
         (* Kleene self-loop *)
         if (match r_kc r with Some k => N.leb (max_events lim) (k_next k) | None => false end) then AContinue r
         else
@@ -293,75 +363,10 @@ Definition advance (n : nfa) (lim : limits) (r : run) (e : event) : adv :=
             | None => APanic
             end
       else
-        (* transitions: first matching next state *)
-        let try_trans :=
-          (fix go (ts : list nat) : option adv :=
-             match ts with
-             | [] => None
-             | nx :: rest =>
-               match nth_error n nx with
-               | None => Some APanic
-               | Some ns =>
-                 if matches_state ns e (r_cap r) then
-                   let r1 := push (set_cur r nx) e (s_alias ns) in
-                   match s_type ns with
-                   | TAccept => Some (complete_run r1 lim)
-                   | TKleene =>
-                     if s_self ns then
-                       if s_eps_acc ns then
-                         let r2 := set_kc r1 (Some (kc_count (r_kc r1) e (s_alias ns))) in
-                         Some (ACompleteContinue r2 (match_of r2))
-                       else
-                         let k := kc_or_new r1 ns in
-                         if N.leb (max_events lim) (k_next k) then Some (AContinue (set_kc r1 (Some k)))
-                         else match kc_extend k e (s_alias ns) with
-                              | Some k' => Some (AContinue (set_kc r1 (Some k')))
-                              | None => Some APanic
-                              end
-                     else Some (AContinue r1)
-                   | _ => Some (AContinue r1)
-                   end
-                 else go rest
-               end
-             end) (s_trans cur) in
-        match try_trans with
+        match trans_go n lim r e (s_trans cur) with
         | Some a => a
         | None =>
-          (* epsilon transitions *)
-          let try_eps :=
-            (fix go (es : list nat) : option adv :=
-               match es with
-               | [] => None
-               | ep :: rest =>
-                 match nth_error n ep with
-                 | None => Some APanic
-                 | Some es_ =>
-                   match s_type es_ with
-                   | TAccept => Some (complete_run r lim)
-                   | _ =>
-                     match (fix inner (ts : list nat) : option adv :=
-                              match ts with
-                              | [] => None
-                              | nx :: trest =>
-                                match nth_error n nx with
-                                | None => Some APanic
-                                | Some ns =>
-                                  if matches_state ns e (r_cap r) then
-                                    let r1 := push (set_cur r nx) e (s_alias ns) in
-                                    match s_type ns with
-                                    | TAccept => Some (complete_run r1 lim)
-                                    | _ => Some (AContinue r1)
-                                    end
-                                  else inner trest
-                                end
-                              end) (s_trans es_) with
-                     | Some a => Some a
-                     | None => go rest
-                     end
-                   end
-                 end
-               end) (s_eps cur) in
-          match try_eps with
+          match eps_go n lim r e (s_eps cur) with
           | Some a => a
           | None => ANoMatch r
           end
@@ -369,32 +374,32 @@ Definition advance (n : nfa) (lim : limits) (r : run) (e : event) : adv :=
     end
   end.
 
+Fixpoint start_go (n : nfa) (e : event) (started : nat) (ts : list nat) : option run :=
+  match ts with
+  | [] => None
+  | nx :: rest =>
+    match nth_error n nx with
+    | None => None
+    | Some ns =>
+      if matches_state ns e [] then Some (push (mkRun nx [] [] false None started) e (s_alias ns))
+      else start_go n e started rest
+    end
+  end.
+
 (* try_start_run_shared: first transition of the start state whose target matches *)
 Definition try_start (n : nfa) (e : event) (started : nat) : option run :=
   match nth_error n 0 with
   | None => None
-  | Some st =>
-    (fix go (ts : list nat) : option run :=
-       match ts with
-       | [] => None
-       | nx :: rest =>
-         match nth_error n nx with
-         | None => None
-         | Some ns =>
-           if matches_state ns e [] then Some (push (mkRun nx [] [] false None started) e (s_alias ns))
-           else go rest
-         end
-       end) (s_trans st)
+  | Some st => start_go n e started (s_trans st)
   end.
 
 (* Vec::swap_remove *)
+(* the element at i is replaced by the last element of the vector, which is removed *)
 Definition swap_remove {A} (l : list A) (i : nat) : list A :=
-  match rev l with
-  | [] => []
-  | lastx :: _ =>
-    let n := length l in
-    if Nat.eqb i (n - 1) then removelast l
-    else removelast (upd l i (fun _ => lastx))
+  match skipn i l with
+  | [] => l                         (* out of range: Rust panics; never reached (index comes from nth_error) *)
+  | _ :: tl =>
+    firstn i l ++ match rev tl with [] => [] | z :: rt => z :: rev rt end
   end.
 
 (* process_runs_shared / process_partition_shared *)
